@@ -643,5 +643,18 @@ M("x-inventory-pruned-while-iterated", "C10", "RX.3", RP,
 M("x-catch-all-handler-looks-up-peer", "C20", "R20.12", "skepticoin/networking/local_peer.py",
   "            self.disconnect(remote_peer, \"Exception\")\n",
   "            self.disconnect(remote_peer, \"Exception\")\n            self.network_manager.disconnected_peers[(remote_peer.host, remote_peer.port, remote_peer.direction)].ban_score += 1\n")
+# decorators that carry behaviour are expanded at load time (engine/deccanon.py): what they do is seen, not skipped
+M("x-validator-behind-a-swallowing-decorator", "C09", ["R09.flow", "R17.1", "R01.7", "R01.1", "RX.2", "R09.3", "R05.1", "R05.2"], CONS,
+  "def validate_block_by_itself(block: Block, current_timestamp: int) -> None:",
+  "def _lenient(function):  # type: ignore\n    def wrapper(*args, **kwargs):  # type: ignore\n        try:\n            return function(*args, **kwargs)\n"
+  "        except ValidateBlockError:\n            return None\n    return wrapper\n\n\n"
+  "@_lenient\ndef validate_block_by_itself(block: Block, current_timestamp: int) -> None:")
+M("x-balance-memoised-per-wallet-object", "C15", "RX.5", "skepticoin/wallet.py",
+  "    def get_balance(self, coinstate: CoinState) -> int:", "    @lru_cache(maxsize=8)\n    def get_balance(self, coinstate: CoinState) -> int:",
+  "skepticoin/wallet.py", "import json\n", "import json\nfrom functools import lru_cache\n")
+M("x-lock-decorator-without-the-lock", "C13", ["R13.3", "R13.1", "R12.5"], MGR,
+  "class ChainManager(Manager):", "def _locked(method):  # type: ignore\n    def wrapper(self, *args, **kwargs):  # type: ignore\n        return method(self, *args, **kwargs)\n    return wrapper\n\n\nclass ChainManager(Manager):",
+  MGR, "    def set_coinstate(self, coinstate: CoinState, validated: bool = True) -> None:\n        with self.lock:\n",
+  "    @_locked\n    def set_coinstate(self, coinstate: CoinState, validated: bool = True) -> None:\n        if True:\n")
 M("x-set-coinstate-default-flipped", "C01", "R13.6", MGR,
   "    def set_coinstate(self, coinstate: CoinState, validated: bool = True) -> None:", "    def set_coinstate(self, coinstate: CoinState, validated: bool = False) -> None:")
